@@ -478,7 +478,7 @@ func (r *clusterRunner) asyncStartF(a *AsyncReq) {
 	req := search.AsyncRequest{Query: s.Q.SeqQL(), From: time.UnixMilli(int64(s.From)), To: time.UnixMilli(int64(min(s.To, uint64(math.MaxInt64/2000000)))), Order: order, HistogramInterval: seq.MID(s.Interval)}
 	fn := map[string]seq.AggFunc{"count": seq.AggFuncCount, "sum": seq.AggFuncSum, "min": seq.AggFuncMin, "max": seq.AggFuncMax, "avg": seq.AggFuncAvg, "quantile": seq.AggFuncQuantile, "unique": seq.AggFuncUnique}
 	for _, ag := range s.Aggs {
-		req.Aggregations = append(req.Aggregations, search.AggQuery{Field: ag.Field, GroupBy: ag.GroupBy, Func: fn[ag.Func], Quantiles: ag.Quantiles})
+		req.Aggregations = append(req.Aggregations, search.AggQuery{Field: ag.Field, GroupBy: ag.GroupBy, Func: fn[ag.Func], Quantiles: ag.Quantiles, Interval: seq.MID(ag.Interval)})
 	}
 	resp, err := r.ing.StartAsyncSearch(context.Background(), req)
 	r.logf("async %s start -> %q %v", a.ID, resp.ID, err)
@@ -530,7 +530,7 @@ func (r *clusterRunner) asyncFetchF(a *AsyncReq, wait bool) {
 			}
 			if len(s.Aggs) > 0 && len(resp.QPR.Aggs) == len(s.Aggs) {
 				for i, ag := range s.Aggs {
-					if msg := compareQPRAgg(ag, &resp.QPR.Aggs[i], model.Agg(want, ag.Func, ag.Field, ag.GroupBy)); msg != "" {
+					if msg := checkQPRAgg(ag, &resp.QPR.Aggs[i], want); msg != "" {
 						r.violate("async_result", "asynchronous search %s %q done: agg %+v: %s", a.ID, s.Q.SeqQL(), ag, msg)
 						return
 					}
